@@ -14,10 +14,10 @@ func checkC05(c *Ctx) {
 		"(S1-ownership) entries and the Next/Prev of its elements are touched only by an activation holding the scheduler role or with the mutex held after running was read false in that critical section; (S1-single-scheduler) from every exported entry point the loop is entered only after running was read false and set true in one critical section. " +
 		"(S2-routing) every send on a request channel happens with the mutex held on the running==true branch, never by the scheduler itself; (S2-twin) every return of the exported method that can forward a removal / a new entry has forwarded it or applied it to entries itself (a search that came back empty counts as applied); (S2-stop-clears-running) every return after the stop request has stored running=false under the mutex. " +
 		"(S3-counted-start) every Job.Run runs inside another Job (chain wrapper) or in a goroutine whose go statement is dominated by counter.Add(n>0), with Done never before Run; (S3-stop-context) what Stop returns is the context of one context.WithCancel(Background/TODO) and every call of its cancel is dominated by counter.Wait(); (S3-wait-after-stop) in the method that sends the stop request every start of that wait follows the send or a read of running==false; (S3-waiter-reuse) a sync.WaitGroup counter is not waited on by a detached goroutine while a restart can Add to it. " +
-		"(S4-guard) every start of an entry's job is reached only with origNext <= a clock reading and !origNext.IsZero() established (After/Before/Equal/Compare/Sub forms, predicate helpers); (S4-bookkeeping) the iteration that starts it stores Prev = origNext and Next = its own Schedule.Next(clock reading), and starts it once. " +
+		"(S4-guard) every start of an entry's job is reached only with origNext <= a clock reading and !origNext.IsZero() established (After/Before/Equal/Compare/Sub forms, predicate helpers), and every path that examines an entry and does not start it has established origNext.IsZero() or origNext strictly after the reading (an exactly-due entry is not skipped); (S4-bookkeeping) the iteration that starts it stores Prev = origNext and Next = its own Schedule.Next(clock reading), and starts it once. " +
 		"(S5-stop-final) after the stop request was taken the scheduler does not wait again, start a job or touch entries; (S5-remove-applied) after a removal request was taken entries is rewritten (or searched in vain) before the next wait, and a decodable remover keeps exactly the entries with another ID. " +
 		"(S6-rendezvous) the stop/remove/add channels are created unbuffered. " +
-		"(S7-arm-earliest) the timer is armed for entries[0].Next with entries sorted since their last change; (S7-fresh-now) the instant subtracted was assigned a clock reading after the previous wait; (S7-rearm) every wait follows an arming decision made after the last change of entries/Next; (S7-add-case) an entry received while running gets Next from its own schedule and a reading taken after the wait, and is appended; (S7-init-next) before the first wait every existing entry gets Next recomputed; (S7-drain) a blocking drain of the timer channel is not reached with the timer whose value the wake-up consumed; (S8-order) the sort comparator (Less method, sort.Slice closure, slices.SortFunc) puts zero Next last and otherwise orders chronologically, not reversed. " +
+		"(S7-arm-earliest) the timer is armed for entries[0].Next with entries sorted since their last change; (S7-fresh-now) the instant subtracted was assigned a clock reading after the previous wait; (S7-rearm) every wait follows an arming decision made after the last change of entries/Next; (S7-add-case) an entry received while running gets Next from its own schedule and a reading taken after the wait, and is appended; (S7-init-next) before the first wait every existing entry gets Next recomputed; (S7-drain) a blocking drain of the timer channel is not reached with the timer whose value the wake-up consumed; (S8-order) the sort comparator (Less method, sort.Slice closure, slices.SortFunc) puts zero Next last and otherwise orders chronologically by the instants themselves — not reversed, not by a lossy projection such as Unix seconds. " +
 		"(S9-next-in-location) every time handed to an entry's Schedule.Next was converted with In(<the location field>). " +
 		"(S10-id-unique) the ID counter is accessed only under the mutex, only ever advanced by a non-zero constant, and taking a value for an ID and advancing it happen in one critical section. " +
 		"NOT decided: once-per-activation over all histories and interleavings, timing ('never early' only as a guard on every start), behaviour under clock jumps, the values Entries() returns beyond 'Prev is the instant that was compared', the chain wrappers' semantics, user Schedule implementations, liveness (a context that never completes is only a NOTE). Unknown shapes (running not a bool, several reporting cells, more tracked booleans than fit, undecoded comparator or duration form, unclassified clock source) give UNDECIDED, not VIOLATION."
@@ -33,7 +33,7 @@ func checkC05(c *Ctx) {
 
 	a := newC05(c)
 
-	r.Rule("C05.S4-guard", "a job is started only under Entry.Next <= now (clock reading) and !Entry.Next.IsZero(), on every path", 2)
+	r.Rule("C05.S4-guard", "a job is started only under Entry.Next <= now (clock reading) and !Entry.Next.IsZero(), on every path; an examined entry that is not started was shown not due (zero, or Next strictly after the reading)", 3)
 	r.Rule("C05.S4-bookkeeping", "the iteration that starts a job stores Prev = the compared Next and Next = Schedule.Next(clock reading), and starts it once", 3)
 	a.checkActivation()
 
